@@ -2,16 +2,21 @@
    the plain n-ary merge fold with no hypothesis at all.
 
    Part 1  the stars of `merger l (bare star operand)` are l's stars, by name
-   Part 2  stars_apart_fold: the star-name hypothesis, pairwise along the fold
-           (much weaker than ProvKeys.stars_apart; exact on the bounded universe of
-           Part 7); embed_n_src_ok
-   Part 3  embed_n_truthful (only: the first map is a dictionary)
+   Part 2  stars_apart_fold: the star-name hypothesis, pairwise along the fold (much
+           weaker than ProvKeys.stars_apart, which it subsumes: Part 6); embed_n_src_ok
+   Part 3  embed_n_truthful (only: the first map is a dictionary) and the hypothesis-free
+           embed_n_truthful_entries
    Part 4  embed_n_src_shape / embed_n_nodup WITHOUT any star-name hypothesis
    Part 5  merge_src_shape_n: the fold concatenates whole input lists, for ANY inputs
            (merge_src_shape_n_partial); "each at most once" is false
            (merge_src_shape_n_refuted)
    Part 6  stars_apart implies stars_apart_fold; examples
-   Part 7  bounded evidence that stars_apart_fold is the weakest hypothesis *)
+   Part 7  bounded cross-check: on all triples of a 35-signature universe with colliding
+           spellings the hypothesis holds IFF the result map is well formed
+
+   The hypothesis that is necessary AND sufficient for every input (it differs from
+   stars_apart_fold only from four signatures on, where a dropped optional parameter
+   matters) is stars_apart_exact in ProvEmbedNExact.v: embed_n_src_ok_iff. *)
 From Coq Require Import List NArith Bool Arith Lia Btauto.
 From Sigtools.Model Require Import Base Bind Roles Algebra.
 From Sigtools.Proofs Require Import SmallModel Basics Prov MaskLaws MaskExact MergeNeutral Annot
@@ -313,6 +318,93 @@ Proof.
   eexists. repeat split; vm_compute; reflexivity.
 Qed.
 
+(* ---- the same with NO hypothesis at all, in terms of the entries of the maps ---- *)
+Definition listed (m : srcmap) (x : name) (f : N) : Prop := exists v, In (x, v) m /\ In f v.
+
+Lemma src_get_In m x f : In f (src_get m x) -> listed m x f.
+Proof.
+  induction m as [|[k v] m IH]; cbn [src_get]; [intros []|].
+  destruct (N.eqb_spec x k) as [->|]; intros H.
+  - exists v. split; [left; reflexivity | exact H].
+  - destruct (IH H) as (v' & A & B). exists v'. split; [right; exact A | exact B].
+Qed.
+
+Lemma src_get_entry m x v : NoDup (keys m) -> In (x, v) m -> src_get m x = v.
+Proof.
+  induction m as [|[k v'] m IH]; intros Hn H; [destruct H|]. cbn [src_get]. destruct H as [H|H].
+  - inversion H; subst. rewrite N.eqb_refl. reflexivity.
+  - cbn [keys map fst] in Hn. inversion Hn as [|? ? Hk Hn']; subst.
+    destruct (N.eqb_spec x k) as [->|]; [|apply IH; assumption].
+    exfalso. apply Hk. change k with (fst (k, v)). unfold keys. apply in_map. exact H.
+Qed.
+
+Lemma src_set_entry m k v x v' : In (x, v') (src_set m k v) -> In (x, v') m \/ (x, v') = (k, v).
+Proof.
+  induction m as [|[k0 v0] m IH]; cbn [src_set].
+  - intros [H|[]]. right. symmetry. exact H.
+  - destruct (N.eqb k k0).
+    + intros [H|H]; [right; symmetry; exact H | left; right; exact H].
+    + intros [H|H]; [left; left; exact H|].
+      destruct (IH H) as [A|A]; [left; right; exact A | right; exact A].
+Qed.
+
+Lemma overlay_entry o : forall m x v, In (x, v) (overlay o m) -> In (x, v) m \/ In (x, v) o.
+Proof.
+  unfold overlay. induction o as [|[k v0] o IH]; intros m x v; cbn [fold_left fst snd]; [auto|].
+  intros H. destruct (IH _ _ _ H) as [A|A]; [|right; right; exact A].
+  destruct (src_set_entry _ _ _ _ _ A) as [B|B]; [left; exact B | right; left; symmetry; exact B].
+Qed.
+
+Lemma src_pop_entry m k x v : In (x, v) (src_pop m k) -> In (x, v) m.
+Proof.
+  induction m as [|[k0 v0] m IH]; cbn [src_pop]; [auto|].
+  destruct (N.eqb k k0); [intros H; right; apply IH; exact H|].
+  intros [H|H]; [left; exact H | right; apply IH; exact H].
+Qed.
+
+Lemma pop_star_entry b o m x v : In (x, v) (pop_star b o m) -> In (x, v) m.
+Proof. unfold pop_star. destruct o; [|auto]. destruct b; [apply src_pop_entry | auto]. Qed.
+
+Lemma embed_step_listed outer inner uva uvk depth s x f :
+  embed_step outer inner uva uvk depth = Ok s ->
+  listed (ssrc s) x f -> listed (ssrc outer) x f \/ listed (ssrc inner) x f.
+Proof.
+  intros E (v & Hv & Hf). destruct (embed_step_inv _ _ _ _ _ _ E) as (m & Em & _ & _ & _ & Es).
+  destruct (merger_Inv _ _ _ Em) as (M1 & _).
+  rewrite Es in Hv. destruct (overlay_entry _ _ _ _ Hv) as [A|A].
+  - right. rewrite <- (src_get_entry _ _ _ M1 A) in Hf.
+    destruct (merger_truthful _ _ _ _ _ Em Hf) as [H|H]; [apply src_get_In; exact H|].
+    cbn [estars ssrc src_get] in H. destruct H.
+  - left. exists v. split; [|exact Hf]. apply pop_star_entry in A. apply pop_star_entry in A. exact A.
+Qed.
+
+Lemma embed_steps_listed x f ss : forall acc uva uvk depth r,
+  embed_steps acc ss uva uvk depth = Ok r -> listed (ssrc r) x f ->
+  listed (ssrc acc) x f \/ exists s, In s ss /\ listed (srcs s) x f.
+Proof.
+  induction ss as [|s ss IH]; intros acc uva uvk depth r; cbn [embed_steps].
+  - intros E; inversion E; subst. auto.
+  - intros E Hf. apply bind_ok in E. destruct E as [acc' [E1 E2]]. apply to_incompatible_ok in E1.
+    destruct (IH _ _ _ _ _ E2 Hf) as [H|[s' [Hs' H]]].
+    + destruct (embed_step_listed _ _ _ _ _ _ _ _ E1 H) as [A|A]; [left; exact A|].
+      right. exists s. split; [left; reflexivity|]. rewrite sort_params_ssrc in A. exact A.
+    + right. exists s'. split; [right; exact Hs' | exact H].
+Qed.
+
+(* (b), hypothesis-free form: every callable listed for x in the result is listed, in an
+   entry for x, by one of the inputs — any signatures, any maps *)
+Theorem embed_n_truthful_entries s0 ss uva uvk r x f :
+  embed (s0 :: ss) uva uvk = Ok r -> In f (src_get (srcs r) x) ->
+  exists s v, In s (s0 :: ss) /\ In (x, v) (srcs s) /\ In f v.
+Proof.
+  cbn [embed]. intros E Hf.
+  apply bind_ok in E. destruct E as [acc [E1 E2]].
+  destruct (apply_params_fields _ _ _ E2) as [_ Es]. rewrite Es in Hf. apply src_get_In in Hf.
+  destruct (embed_steps_listed _ _ _ _ _ _ _ _ E1 Hf) as [(v & A & B)|[s [Hs (v & A & B)]]].
+  - exists s0, v. rewrite sort_params_ssrc in A. split; [left; reflexivity | split; assumption].
+  - exists s, v. split; [right; exact Hs | split; assumption].
+Qed.
+
 (* ================================================================== *)
 (* Part 4 — list shape and duplicate-freedom, no star-name hypothesis   *)
 
@@ -442,3 +534,514 @@ Proof.
   intros E Hv Hk Hn. destruct (embed_n_src_shape s0 ss uva uvk r x E Hv Hk) as [-> | (s & Hs & ->)];
     [constructor | apply Hn; exact Hs].
 Qed.
+
+(* ================================================================== *)
+(* Part 5 — the plain n-ary merge fold, ANY signatures                  *)
+
+(* One merger step only ever writes `src[x] = l[x] + r[x]` or extends src[x] by l[x], by
+   r[x] or by both: every list is a concatenation of whole operand lists for that very
+   name, whatever the operands are (valid or not, names repeated or not). *)
+Section Words.
+Variables l r : sorted.
+
+Definition wcat (w : list side) (x : name) : list N := flat_map (fun s => sside l r s x) w.
+Definition Wd (m : srcmap) : Prop := forall x, exists w, src_get m x = wcat w x.
+Definition WS (st : mstate) : Prop := Wd (m_src st).
+
+Lemma wcat_app w w' x : wcat (w ++ w') x = wcat w x ++ wcat w' x.
+Proof. unfold wcat. apply flat_map_app. Qed.
+
+Lemma Wd_nil : Wd [].
+Proof. intros x. exists []. reflexivity. Qed.
+
+Lemma Wd_add1 m y s : Wd m -> Wd (src_add m y (sside l r s y)).
+Proof.
+  intros H x. rewrite src_get_add. destruct (N.eqb_spec x y) as [->|]; [|apply H].
+  destruct (H y) as [w Hw]. exists (w ++ [s]). rewrite wcat_app, Hw. cbn. rewrite app_nil_r. reflexivity.
+Qed.
+
+Lemma Wd_add2 m y a b : Wd m -> Wd (src_add m y (sside l r a y ++ sside l r b y)).
+Proof.
+  intros H x. rewrite src_get_add. destruct (N.eqb_spec x y) as [->|]; [|apply H].
+  destruct (H y) as [w Hw]. exists (w ++ [a; b]). rewrite wcat_app, Hw. cbn. rewrite app_nil_r. reflexivity.
+Qed.
+
+Lemma Wd_set m y a b : Wd m -> Wd (src_set m y (sside l r a y ++ sside l r b y)).
+Proof.
+  intros H x. rewrite src_get_set. destruct (N.eqb_spec x y) as [->|]; [|apply H].
+  exists [a; b]. cbn. rewrite app_nil_r. reflexivity.
+Qed.
+
+Lemma WS_same st st' : m_src st' = m_src st -> WS st -> WS st'.
+Proof. unfold WS. intros ->. auto. Qed.
+Lemma WS_add1 st st' y s : m_src st' = src_add (m_src st) y (sside l r s y) -> WS st -> WS st'.
+Proof. unfold WS. intros ->. apply Wd_add1. Qed.
+Lemma WS_add2 st st' y a b :
+  m_src st' = src_add (m_src st) y (sside l r a y ++ sside l r b y) -> WS st -> WS st'.
+Proof. unfold WS. intros ->. apply Wd_add2. Qed.
+Lemma WS_set st st' y a b :
+  m_src st' = src_set (m_src st) y (sside l r a y ++ sside l r b y) -> WS st -> WS st'.
+Proof. unfold WS. intros ->. apply Wd_set. Qed.
+
+Lemma kwo_match_W lk : forall st, WS st -> WS (kwo_match l r lk st).
+Proof.
+  induction lk as [|p lk IH]; intros st H; cbn [kwo_match]; [exact H|]. apply IH.
+  destruct (find_param (pname p) (kwoargs r)) as [q|].
+  - apply (WS_set st _ (pname p) L R); [reflexivity | exact H].
+  - apply (WS_same st); [reflexivity | exact H].
+Qed.
+
+Lemma unb_pos1_W s e conv st st' c : WS st -> unb_pos1 l r s e conv st = Ok (st', c) -> WS st'.
+Proof.
+  intros H. unfold unb_pos1. destruct conv as [|o conv'].
+  - destruct (isSome (varargs (other l r s))).
+    + intros E. inversion E; subst. apply (WS_add1 st _ (pname e) s); [destruct s; reflexivity | exact H].
+    + destruct (negb (has_def e)); [discriminate|]. intros E. inversion E; subst. exact H.
+  - intros E. inversion E; subst. destruct (N.eqb (pname o) (pname e)).
+    + apply (WS_add2 st _ (pname e) s (match s with L => R | R => L end)); [destruct s; reflexivity | exact H].
+    + apply (WS_add1 st _ (pname e) s); [destruct s; reflexivity | exact H].
+Qed.
+
+Lemma unb_pos_all_W s ps : forall conv st st' c,
+  WS st -> unb_pos_all l r s ps conv st = Ok (st', c) -> WS st'.
+Proof.
+  induction ps as [|p ps IH]; intros conv st st' c H; cbn [unb_pos_all].
+  - intros E. inversion E; subst. exact H.
+  - intros E. apply bind_ok in E. destruct E as [[st1 c1] [E1 E2]]. cbn [fst snd] in E2.
+    eapply IH; [|exact E2]. eapply unb_pos1_W; [exact H | exact E1].
+Qed.
+
+Lemma zip_pos_W lp : forall rp il ir st st' il' ir',
+  WS st -> zip_pos l r lp rp il ir st = Ok (st', il', ir') -> WS st'.
+Proof.
+  induction lp as [|a lp IH]; intros rp il ir st st' il' ir' H.
+  - cbn [zip_pos]. intros E. apply bind_ok in E. destruct E as [[st1 c1] [E1 E2]].
+    inversion E2; subst. eapply unb_pos_all_W; [exact H | exact E1].
+  - destruct rp as [|b rp]; cbn [zip_pos].
+    + intros E. apply bind_ok in E. destruct E as [[st1 c1] [E1 E2]].
+      inversion E2; subst. eapply unb_pos_all_W; [exact H | exact E1].
+    + intros E. eapply IH; [|exact E]. destruct (N.eqb (pname a) (pname b)).
+      * apply (WS_add2 st _ (pname a) L R); [reflexivity | exact H].
+      * apply (WS_add1 st _ (pname a) L); [reflexivity | exact H].
+Qed.
+
+Lemma unb_pok1_W s e st st' : WS st -> unb_pok1 l r s e st = Ok st' -> WS st'.
+Proof.
+  intros H. unfold unb_pok1.
+  destruct (find_param (pname e) (unm st (match s with L => R | R => L end))) as [q|].
+  - intros E. inversion E; subst.
+    apply (WS_add2 st _ (pname e) (match s with L => R | R => L end) s); [destruct s; reflexivity | exact H].
+  - destruct (isSome (varargs (other l r s)) && isSome (varkwargs (other l r s))).
+    { intros E. inversion E; subst. apply (WS_add1 st _ (pname e) s); [destruct s; reflexivity | exact H]. }
+    destruct (isSome (varkwargs (other l r s))).
+    { intros E. inversion E; subst. apply (WS_add1 st _ (pname e) s); [destruct s; reflexivity | exact H]. }
+    destruct (isSome (varargs (other l r s))).
+    { intros E. inversion E; subst. apply (WS_add1 st _ (pname e) s); [destruct s; reflexivity | exact H]. }
+    destruct (negb (has_def e)); [discriminate|]. intros E. inversion E; subst. exact H.
+Qed.
+
+Lemma unb_pok_all_W s ps : forall st st', WS st -> unb_pok_all l r s ps st = Ok st' -> WS st'.
+Proof.
+  induction ps as [|p ps IH]; intros st st' H; cbn [unb_pok_all].
+  - intros E. inversion E; subst. exact H.
+  - intros E. apply bind_ok in E. destruct E as [st1 [E1 E2]].
+    eapply IH; [|exact E2]. eapply unb_pok1_W; [exact H | exact E1].
+Qed.
+
+Lemma zip_pok_W il : forall ir st st', WS st -> zip_pok l r il ir st = Ok st' -> WS st'.
+Proof.
+  induction il as [|a il IH]; intros ir st st' H.
+  - cbn [zip_pok]. apply unb_pok_all_W. exact H.
+  - destruct ir as [|b ir]; cbn [zip_pok].
+    + apply unb_pok_all_W. exact H.
+    + intros E. eapply IH; [|exact E]. destruct (N.eqb (pname a) (pname b)).
+      * apply (WS_add2 st _ (pname a) L R); [reflexivity | exact H].
+      * apply (WS_add1 st _ (pname a) L); [reflexivity | exact H].
+Qed.
+
+Lemma fold_add_src1_W s u : forall st,
+  WS st -> WS (fold_left (fun a p => add_src1 l r a (pname p) s) u st).
+Proof.
+  induction u as [|p u IH]; intros st H; cbn [fold_left]; [exact H|]. apply IH.
+  apply (WS_add1 st _ (pname p) s); [reflexivity | exact H].
+Qed.
+
+Lemma unmatched_kwo_W s st st' : WS st -> unmatched_kwo l r s st = Ok st' -> WS st'.
+Proof.
+  intros H. unfold unmatched_kwo. destruct (unm st s) as [|q u] eqn:Eu.
+  - intros E. inversion E; subst. exact H.
+  - destruct (isSome (varkwargs (other l r s))).
+    + intros E. apply Ok_inj in E. subst st'.
+      apply (WS_same (fold_left (fun a p => add_src1 l r a (pname p) s) (q :: u)
+                                (set_kwo st (od_update (m_kwo st) (q :: u))))).
+      * destruct s; reflexivity.
+      * apply fold_add_src1_W. apply (WS_same st); [reflexivity | exact H].
+    + destruct (forallb has_def (q :: u)); [|discriminate]. intros E. inversion E; subst. exact H.
+Qed.
+
+Lemma normalise_pok_W st : WS st -> WS (normalise_pok st).
+Proof.
+  intros H. unfold normalise_pok. destruct (split_po_prefix (m_pok st)) as [a b].
+  apply (WS_same st); [reflexivity | exact H].
+Qed.
+
+Lemma add_star_W xl xr sl sr st : WS st -> WS (snd (add_star l r xl xr sl sr st)).
+Proof.
+  intros H. unfold add_star. destruct sl as [a|]; [|exact H]. destruct sr as [b|]; [|exact H].
+  destruct (negb xl && negb xr).
+  - cbn [snd]. destruct (N.eqb (pname a) (pname b)).
+    + apply (WS_add2 st _ (pname a) L R); [reflexivity | exact H].
+    + apply (WS_add1 st _ (pname a) L); [reflexivity | exact H].
+  - destruct (negb xl); cbn [snd].
+    + apply (WS_add1 st _ (pname a) L); [reflexivity | exact H].
+    + apply (WS_add1 st _ (pname b) R); [reflexivity | exact H].
+Qed.
+
+Theorem merger_words s : merger l r = Ok s -> Wd (ssrc s).
+Proof.
+  unfold merger. intros E.
+  assert (H0 : WS (mkM [] [] [] [] false false false false [] [])) by exact Wd_nil.
+  pose proof (kwo_match_W (kwoargs l) _ H0) as H1.
+  set (st1 := kwo_match l r (kwoargs l) (mkM [] [] [] [] false false false false [] [])) in *.
+  assert (H2 : WS (set_unm st1 R (r_unmatched l r))) by (apply (WS_same st1); [reflexivity | exact H1]).
+  apply bind_ok in E. destruct E as [[[st3 il] ir] [E3 E]].
+  pose proof (zip_pos_W _ _ _ _ _ _ _ _ H2 E3) as H3.
+  apply bind_ok in E. destruct E as [st4 [E4 E]].
+  pose proof (zip_pok_W _ _ _ _ H3 E4) as H4.
+  apply bind_ok in E. destruct E as [st5 [E5 E]].
+  pose proof (unmatched_kwo_W _ _ _ H4 E5) as H5.
+  apply bind_ok in E. destruct E as [st6 [E6 E]].
+  pose proof (unmatched_kwo_W _ _ _ H5 E6) as H6.
+  pose proof (normalise_pok_W _ H6) as H7.
+  set (st7 := normalise_pok st6) in *.
+  pose proof (add_star_W (m_xva_l st7) (m_xva_r st7) (varargs l) (varargs r) st7 H7) as H8.
+  destruct (add_star l r (m_xva_l st7) (m_xva_r st7) (varargs l) (varargs r) st7) as [va st8].
+  cbn [snd] in H8.
+  pose proof (add_star_W (m_xvk_l st8) (m_xvk_r st8) (varkwargs l) (varkwargs r) st8 H8) as H9.
+  destruct (add_star l r (m_xvk_l st8) (m_xvk_r st8) (varkwargs l) (varkwargs r) st8) as [vk st9].
+  cbn [snd] in H9. inversion E; subst. exact H9.
+Qed.
+End Words.
+
+Lemma cat_of_flat_map inputs x (g : side -> list nat) w :
+  cat_of inputs x (flat_map g w) = flat_map (fun sd => cat_of inputs x (g sd)) w.
+Proof.
+  unfold cat_of. induction w as [|sd w IH]; cbn [flat_map]; [reflexivity|].
+  rewrite flat_map_app, IH. reflexivity.
+Qed.
+
+Lemma merge_steps_shape_n x all rest : forall acc pre r,
+  all = pre ++ rest ->
+  (exists js, (forall j, In j js -> (j < length pre)%nat) /\ src_get (ssrc acc) x = cat_of all x js) ->
+  merge_steps acc rest = Ok r ->
+  exists js, (forall j, In j js -> (j < length all)%nat) /\ src_get (ssrc r) x = cat_of all x js.
+Proof.
+  induction rest as [|s rest IH]; intros acc pre r Hall (js & J2 & J3); cbn [merge_steps].
+  - intros E. apply Ok_inj in E. subst r. exists js. split; [|exact J3].
+    intros j Hj. rewrite Hall, app_nil_r. apply J2. exact Hj.
+  - intros E. apply bind_ok in E. destruct E as [acc' [E1 E2]]. apply to_incompatible_ok in E1.
+    assert (Hs : nth (length pre) (pre ++ s :: rest) nosig = s)
+      by (rewrite app_nth2, Nat.sub_diag by lia; reflexivity).
+    apply (IH acc' (pre ++ [s]) r); [rewrite <- app_assoc; exact Hall | | exact E2].
+    destruct (merger_words _ _ _ E1 x) as [w Hw].
+    set (g := fun sd : side => match sd with L => js | R => [length pre] end).
+    exists (flat_map g w). split.
+    + intros j Hj. apply in_flat_map in Hj. destruct Hj as [sd [_ Hj]]. rewrite app_length. cbn [length].
+      destruct sd; cbn [g] in Hj; [apply J2 in Hj; lia | destruct Hj as [<-|[]]; lia].
+    + rewrite Hw, cat_of_flat_map. unfold wcat. apply flat_map_ext. intros sd.
+      unfold sside. destruct sd; cbn [my g].
+      * exact J3.
+      * rewrite sort_params_ssrc. unfold cat_of. cbn [flat_map]. rewrite Hall, Hs, app_nil_r. reflexivity.
+Qed.
+
+(* (d) the plain n-ary merge fold, ANY signatures (not even valid ones), no role
+   consistency: every provenance list of the result is a concatenation of whole input
+   lists for that name.  This is the strongest true variant of merge_src_shape_rc without
+   its hypotheses: what is lost is `NoDup js` (each input at most once), which is false —
+   merge_src_shape_n_refuted. *)
+Theorem merge_src_shape_n_partial ss r x :
+  merge ss = Ok r ->
+  exists js, (forall j, In j js -> (j < length ss)%nat) /\ src_get (srcs r) x = cat_of ss x js.
+Proof.
+  destruct ss as [|s0 rest]; [discriminate|]. cbn [merge]. intros E.
+  apply bind_ok in E. destruct E as [acc [E1 E2]].
+  destruct (apply_params_fields _ _ _ E2) as [_ Es]. rewrite Es.
+  apply (merge_steps_shape_n x (s0 :: rest) rest (sort_params s0) [s0] acc); [reflexivity | | exact E1].
+  exists [0%nat]. split; [intros j [<-|[]]; cbn; lia|].
+  rewrite sort_params_ssrc. unfold cat_of. cbn. rewrite app_nil_r. reflexivity.
+Qed.
+
+(* the statement of merge_src_shape_rc without role consistency is false: four valid
+   inputs with well-formed maps, merge((a=1, /, *args), (b=1, /, a=1), ( *args), (c=1, /))
+   = (a=1, /) with a: [s1, s2, s1, s2] — no duplicate-free choice of inputs gives that list *)
+Theorem merge_src_shape_n_refuted :
+  exists s1 s2 s3 s4 r x,
+    Forall (fun s => valid_sig (params s) = true) [s1; s2; s3; s4] /\
+    Forall src_ok [s1; s2; s3; s4] /\
+    merge [s1; s2; s3; s4] = Ok r /\
+    ~ exists js, NoDup js /\ (forall j, In j js -> (j < length [s1; s2; s3; s4])%nat) /\
+                 src_get (srcs r) x = cat_of [s1; s2; s3; s4] x js.
+Proof.
+  set (s1 := dsig 100 [mkParam 1 PO (Some 1) None UEmpty; bp 9 VP]).
+  set (s2 := dsig 101 [mkParam 2 PO (Some 1) None UEmpty; mkParam 1 PK (Some 1) None UEmpty]).
+  set (s3 := dsig 102 [bp 9 VP]). set (s4 := dsig 103 [mkParam 3 PO (Some 1) None UEmpty]).
+  exists s1, s2, s3, s4. eexists. exists 1.
+  split; [repeat constructor|].
+  split.
+  { constructor; [apply dsig_src_ok; vm_compute; reflexivity|].
+    constructor; [apply dsig_src_ok; vm_compute; reflexivity|].
+    constructor; [apply dsig_src_ok; vm_compute; reflexivity|].
+    constructor; [apply dsig_src_ok; vm_compute; reflexivity|]. constructor. }
+  split; [vm_compute; reflexivity|].
+  assert (G : forall j, src_get (srcs (nth j [s1; s2; s3; s4] nosig)) 1 =
+                        match j with 0%nat => [100] | 1%nat => [101] | _ => [] end).
+  { intros [|[|[|[|j]]]]; try reflexivity. cbn [nth]. destruct j; reflexivity. }
+  assert (A : forall ks, ~ In 0%nat ks -> cnt 100 (cat_of [s1; s2; s3; s4] 1 ks) = 0%nat).
+  { intros ks. induction ks as [|j ks IH]; intros Hj; [reflexivity|]. unfold cat_of. cbn [flat_map].
+    fold (cat_of [s1; s2; s3; s4] 1 ks). rewrite cnt_app, G, IH by (intros H; apply Hj; right; exact H).
+    destruct j as [|[|j]]; [exfalso; apply Hj; left; reflexivity | reflexivity | reflexivity]. }
+  assert (B : forall ks, NoDup ks -> (cnt 100%N (cat_of [s1; s2; s3; s4] 1%N ks) <= 1)%nat).
+  { intros ks. induction ks as [|j ks IH]; intros Hd; [cbn; lia|]. inversion Hd as [|? ? Hj Hd']; subst.
+    unfold cat_of. cbn [flat_map]. fold (cat_of [s1; s2; s3; s4] 1 ks). rewrite cnt_app, G.
+    destruct j as [|[|j]].
+    - rewrite (A ks Hj). cbn. lia.
+    - specialize (IH Hd'). cbn. lia.
+    - specialize (IH Hd'). cbn. lia. }
+  intros (js & Hn & _ & Hc).
+  specialize (B js Hn). rewrite <- Hc in B. vm_compute in B. lia.
+Qed.
+
+(* ================================================================== *)
+(* Part 6 — stars_apart_fold is implied by stars_apart; examples        *)
+
+Lemma apart_steps_of_apart (NN VA VK : list name)
+  (NN_VA : forall x, In x NN -> ~ In x VA) (NN_VK : forall x, In x NN -> ~ In x VK)
+  (VA_VK : forall x, In x VA -> ~ In x VK) uva uvk ss : forall nn va vk,
+  (forall y, In y nn -> In y NN) -> (forall a, va = Some a -> In a VA) -> (forall k, vk = Some k -> In k VK) ->
+  Forall (fun s => sorted_in NN VA VK (sort_params s)) ss ->
+  apart_steps uva uvk nn va vk ss = true.
+Proof.
+  induction ss as [|s ss IH]; intros nn va vk Hnn Hva Hvk Hss; cbn [apart_steps]; [reflexivity|].
+  inversion Hss as [|? ? (S1 & S2 & S3) Hss']; subst. apply andb_true_iff. split.
+  - unfold fwd_okb. apply andb_true_iff. split.
+    + destruct va as [a|]; [|reflexivity]. specialize (Hva a eq_refl).
+      assert (E : mem a nn = false).
+      { apply mem_false_In. intros H. exact (NN_VA a (Hnn a H) Hva). }
+      rewrite E. cbn [negb andb]. destruct vk as [k|]; [|destruct uva, uvk; reflexivity].
+      destruct (N.eqb_spec a k) as [->|]; [|destruct uva, uvk; reflexivity].
+      exfalso. exact (VA_VK k Hva (Hvk k eq_refl)).
+    + destruct vk as [k|]; [|reflexivity]. specialize (Hvk k eq_refl).
+      assert (E : mem k nn = false).
+      { apply mem_false_In. intros H. exact (NN_VK k (Hnn k H) Hvk). }
+      rewrite E. cbn [negb andb]. destruct va as [a|]; [|destruct uva, uvk; reflexivity].
+      destruct (N.eqb_spec k a) as [->|]; [|destruct uva, uvk; reflexivity].
+      exfalso. exact (VA_VK a (Hva a eq_refl) Hvk).
+  - apply IH; [| | |exact Hss'].
+    + intros y Hy. apply in_app_or in Hy. destruct Hy as [Hy|Hy]; [apply Hnn; exact Hy|].
+      apply S1. apply mem_In. exact Hy.
+    + intros a. unfold next_star. destruct uva; [|apply Hva].
+      destruct va as [a0|]; [|discriminate]. destruct (varargs (sort_params s)) as [p|] eqn:Ep; [|discriminate].
+      intros E. inversion E; subst. apply S2. reflexivity.
+    + intros k. unfold next_star. destruct uvk; [|apply Hvk].
+      destruct vk as [k0|]; [|discriminate]. destruct (varkwargs (sort_params s)) as [p|] eqn:Ep; [|discriminate].
+      intros E. inversion E; subst. apply S3. reflexivity.
+Qed.
+
+(* the global hypothesis of ProvKeys.embed_src_ok implies the fold-wise one, for any flags:
+   embed_n_src_ok subsumes ProvKeys.embed_src_ok *)
+Theorem stars_apart_fold_weaker uva uvk ss :
+  stars_apart ss = true -> stars_apart_fold uva uvk ss = true.
+Proof.
+  destruct ss as [|s0 ss]; [reflexivity|]. intros Hap. cbn [stars_apart_fold].
+  unfold stars_apart in Hap. apply andb_true_iff in Hap. destruct Hap as [Hap A3].
+  apply andb_true_iff in Hap. destruct Hap as [A1 A2].
+  pose proof (sort_params_sorted_in (s0 :: ss) s0 (or_introl eq_refl)) as (S1 & S2 & S3).
+  apply (apart_steps_of_apart (named_names (s0 :: ss)) (va_names (s0 :: ss)) (vk_names (s0 :: ss))
+           (disjointb_spec _ _ A1) (disjointb_spec _ _ A2) (disjointb_spec _ _ A3)).
+  - intros y Hy. apply S1. apply mem_In. exact Hy.
+  - intros a. destruct (varargs (sort_params s0)) as [p|] eqn:Ep; [|discriminate].
+    intros E. inversion E; subst. apply S2. reflexivity.
+  - intros k. destruct (varkwargs (sort_params s0)) as [p|] eqn:Ep; [|discriminate].
+    intros E. inversion E; subst. apply S3. reflexivity.
+  - apply Forall_forall. intros s Hs. apply sort_params_sorted_in. right. exact Hs.
+Qed.
+
+(* boolean form of src_ok *)
+Fixpoint nodupb (ns : list N) : bool :=
+  match ns with [] => true | x :: ns' => negb (mem x ns') && nodupb ns' end.
+
+Lemma nodupb_spec ns : nodupb ns = true <-> NoDup ns.
+Proof.
+  induction ns as [|x ns IH]; cbn [nodupb]; [split; [constructor | reflexivity]|].
+  rewrite andb_true_iff, negb_true_iff, IH. split.
+  - intros [A B]. constructor; [apply mem_false_In; exact A | exact B].
+  - intros H. inversion H as [|? ? A B]; subst. split; [apply mem_false_In; exact A | exact B].
+Qed.
+
+Definition src_okb (s : sigT) : bool :=
+  nodupb (keys (srcs s)) &&
+  forallb (fun x => mem x (names_of (params s))) (keys (srcs s)) &&
+  forallb (fun x => src_mem (srcs s) x && match src_get (srcs s) x with [] => false | _ => true end)
+          (names_of (params s)).
+
+Lemma src_okb_spec s : src_okb s = true <-> src_ok s.
+Proof.
+  unfold src_okb, src_ok, wf_src. rewrite !andb_true_iff, nodupb_spec, !forallb_forall. split.
+  - intros [[A B] C]. split; [exact A|]. split.
+    + intros x. destruct (src_mem (srcs s) x) eqn:E1; destruct (mem x (names_of (params s))) eqn:E2; try reflexivity.
+      * rewrite src_mem_keys in E1. apply mem_In in E1. rewrite (B x E1) in E2. discriminate E2.
+      * apply mem_In in E2. specialize (C x E2). rewrite E1 in C. discriminate C.
+    + intros x Hx. apply mem_In in Hx. specialize (C x Hx). apply andb_true_iff in C. destruct C as [_ C].
+      intros E. rewrite E in C. discriminate C.
+  - intros (A & B & C). split; [split; [exact A|]|].
+    + intros x Hx. rewrite <- B, src_mem_keys. apply mem_In. exact Hx.
+    + intros x Hx. apply mem_In in Hx. rewrite B, Hx. cbn [andb]. specialize (C x Hx).
+      destruct (src_get (srcs s) x); [contradiction C; reflexivity | reflexivity].
+Qed.
+
+(* (a) the hypotheses are satisfiable where stars_apart is NOT: the last signature has
+   named parameters spelled like the stars of the earlier ones *)
+Example embed_n_src_ok_sat :
+  exists r, embed [dsig 100 [bp 1 PK; bp 9 VP; bp 10 VK]; dsig 101 [bp 2 PK; bp 9 VP; bp 10 VK];
+                   dsig 102 [bp 9 PK; bp 10 KO]] true true = Ok r /\
+    valid_sig (params (dsig 100 [bp 1 PK; bp 9 VP; bp 10 VK])) = true /\
+    stars_apart_fold true true [dsig 100 [bp 1 PK; bp 9 VP; bp 10 VK]; dsig 101 [bp 2 PK; bp 9 VP; bp 10 VK];
+                                dsig 102 [bp 9 PK; bp 10 KO]] = true /\
+    stars_apart [dsig 100 [bp 1 PK; bp 9 VP; bp 10 VK]; dsig 101 [bp 2 PK; bp 9 VP; bp 10 VK];
+                 dsig 102 [bp 9 PK; bp 10 KO]] = false /\
+    src_ok (dsig 100 [bp 1 PK; bp 9 VP; bp 10 VK]) /\
+    Forall src_nonempty [dsig 101 [bp 2 PK; bp 9 VP; bp 10 VK]; dsig 102 [bp 9 PK; bp 10 KO]] /\
+    srcs r = [(9, [102]); (10, [102]); (2, [101]); (1, [100])] /\ src_ok r.
+Proof.
+  eexists. split; [vm_compute; reflexivity|]. split; [vm_compute; reflexivity|].
+  split; [vm_compute; reflexivity|]. split; [vm_compute; reflexivity|].
+  split; [apply dsig_src_ok; vm_compute; reflexivity|].
+  split; [constructor; [apply src_ok_nonempty; apply dsig_src_ok; vm_compute; reflexivity|];
+          constructor; [apply src_ok_nonempty; apply dsig_src_ok; vm_compute; reflexivity|constructor]|].
+  split; [reflexivity|]. apply src_okb_spec. vm_compute. reflexivity.
+Qed.
+
+(* the refutation witness of ProvKeys.embed_src_ok_refuted is excluded by the fold-wise
+   hypothesis, at the step that embeds the third signature *)
+Example stars_apart_fold_excludes_refutation :
+  stars_apart_fold true true [dsig 100 [bp 1 PK; bp 9 VP; bp 10 VK]; dsig 101 [bp 1 VP; bp 10 VK];
+                              dsig 102 [bp 11 VP]] = false /\
+  stars_apart_fold true true [dsig 100 [bp 1 PK; bp 9 VP; bp 10 VK]; dsig 101 [bp 1 VP; bp 10 VK]] = true.
+Proof. split; vm_compute; reflexivity. Qed.
+
+(* the hypothesis is sufficient, not necessary, for four signatures or more: a named
+   parameter that an earlier step DROPPED (an optional keyword-only parameter of a signature
+   embedded into one without **kwargs) is still counted.
+   embed(( *args), ( *args, a=1), ( *a), ( *args)) = ( *args), well-formed map. *)
+Example stars_apart_fold_not_necessary :
+  exists r, embed [dsig 100 [bp 9 VP]; dsig 101 [bp 9 VP; mkParam 1 KO (Some 1) None UEmpty];
+                   dsig 102 [bp 1 VP]; dsig 103 [bp 9 VP]] true true = Ok r /\
+    stars_apart_fold true true [dsig 100 [bp 9 VP]; dsig 101 [bp 9 VP; mkParam 1 KO (Some 1) None UEmpty];
+                                dsig 102 [bp 1 VP]; dsig 103 [bp 9 VP]] = false /\
+    src_ok r.
+Proof.
+  eexists. split; [vm_compute; reflexivity|]. split; [vm_compute; reflexivity|].
+  apply src_okb_spec. vm_compute. reflexivity.
+Qed.
+
+(* (b), (c): satisfiable, also where the star names collide *)
+Example embed_n_shape_sat :
+  exists r, embed [dsig 100 [bp 1 PK; bp 9 VP; bp 10 VK]; dsig 101 [bp 1 VP; bp 10 VK];
+                   dsig 102 [bp 11 VP]] true true = Ok r /\
+    Forall (fun s => valid_sig (params s) = true)
+           [dsig 100 [bp 1 PK; bp 9 VP; bp 10 VK]; dsig 101 [bp 1 VP; bp 10 VK]; dsig 102 [bp 11 VP]] /\
+    NoDup (keys (srcs (dsig 100 [bp 1 PK; bp 9 VP; bp 10 VK]))) /\
+    srcs r = [(11, [102])] /\ names_of (params r) = [1; 11].
+Proof.
+  eexists. split; [vm_compute; reflexivity|]. split; [repeat constructor|].
+  split; [apply nodupb_spec; vm_compute; reflexivity|]. split; reflexivity.
+Qed.
+
+(* (d): no hypothesis to satisfy; a fold that is not role consistent *)
+Example merge_src_shape_n_sat :
+  exists r, merge [dsig 100 [mkParam 1 PO (Some 1) None UEmpty; bp 9 VP];
+                   dsig 101 [mkParam 2 PO (Some 1) None UEmpty; mkParam 1 PK (Some 1) None UEmpty];
+                   dsig 102 [bp 9 VP]; dsig 103 [mkParam 3 PO (Some 1) None UEmpty]] = Ok r /\
+    role_consistent (map params [dsig 100 [mkParam 1 PO (Some 1) None UEmpty; bp 9 VP];
+                   dsig 101 [mkParam 2 PO (Some 1) None UEmpty; mkParam 1 PK (Some 1) None UEmpty];
+                   dsig 102 [bp 9 VP]; dsig 103 [mkParam 3 PO (Some 1) None UEmpty]]) = false /\
+    src_get (srcs r) 1 = cat_of [dsig 100 [mkParam 1 PO (Some 1) None UEmpty; bp 9 VP];
+                   dsig 101 [mkParam 2 PO (Some 1) None UEmpty; mkParam 1 PK (Some 1) None UEmpty];
+                   dsig 102 [bp 9 VP]; dsig 103 [mkParam 3 PO (Some 1) None UEmpty]] 1 [0; 1; 0; 1]%nat.
+Proof. eexists. split; [vm_compute; reflexivity|]. split; vm_compute; reflexivity. Qed.
+
+(* ================================================================== *)
+(* Part 7 — bounded cross-check: hypothesis <-> well-formed result      *)
+
+(* 35 valid signatures: at most one named parameter (a, a=1, keyword-only a, or b), *args
+   spelled args or a, **kwargs spelled kwargs, a or args — every way a star of one
+   signature can be spelled like a parameter of another *)
+Definition mkp (x : name) (k : kind) (d : option N) : param := mkParam x k d None UEmpty.
+Definition Ux : list (list param) :=
+  filter valid_sig
+    (flat_map (fun n => flat_map (fun a => map (fun k =>
+        match n with
+        | [p] => if kind_eqb (pkind p) KO then a ++ n ++ k else n ++ a ++ k
+        | _ => n ++ a ++ k
+        end) [[]; [mkp 10 VK None]; [mkp 1 VK None]; [mkp 9 VK None]])
+      [[]; [mkp 9 VP None]; [mkp 1 VP None]])
+      [[]; [mkp 1 PK None]; [mkp 1 KO None]; [mkp 1 PK (Some 1)]; [mkp 2 PK None]]).
+
+Definition exact_case (uva uvk : bool) (a b c : list param) : bool :=
+  let ss := [dsig 100 a; dsig 101 b; dsig 102 c] in
+  match embed ss uva uvk with
+  | Ok r => Bool.eqb (src_okb r) (stars_apart_fold uva uvk ss)
+  | Err _ => true
+  end.
+
+Definition exact_on (U : list (list param)) : bool :=
+  forallb (fun uva => forallb (fun uvk =>
+    forallb (fun a => forallb (fun b => forallb (fun c => exact_case uva uvk a b c) U) U) U)
+    [true; false]) [true; false].
+
+Lemma exact_on_spec U : exact_on U = true ->
+  forall uva uvk a b c r, In a U -> In b U -> In c U ->
+  embed [dsig 100 a; dsig 101 b; dsig 102 c] uva uvk = Ok r ->
+  (src_ok r <-> stars_apart_fold uva uvk [dsig 100 a; dsig 101 b; dsig 102 c] = true).
+Proof.
+  unfold exact_on. intros H uva uvk a b c r Ha Hb Hc E.
+  rewrite forallb_forall in H. specialize (H uva). rewrite forallb_forall in H.
+  assert (Hf : forall v : bool, In v [true; false]) by (intros [|]; cbn; auto).
+  specialize (H (Hf uva) uvk (Hf uvk)). rewrite forallb_forall in H. specialize (H a Ha).
+  rewrite forallb_forall in H. specialize (H b Hb). rewrite forallb_forall in H. specialize (H c Hc).
+  unfold exact_case in H. rewrite E in H. apply Bool.eqb_prop in H. rewrite <- H. symmetry. apply src_okb_spec.
+Qed.
+
+Lemma exact_on_Ux : exact_on Ux = true.
+Proof. vm_compute. reflexivity. Qed.
+
+(* on every triple of this universe and all four flag settings, whenever the embed
+   succeeds, the result's provenance map is well formed IF AND ONLY IF the fold-wise
+   hypothesis holds (171500 cases, 42179 successful embeds, 2407 of them ill-formed) *)
+Theorem stars_apart_fold_iff_bounded :
+  forall uva uvk a b c r, In a Ux -> In b Ux -> In c Ux ->
+  embed [dsig 100 a; dsig 101 b; dsig 102 c] uva uvk = Ok r ->
+  (src_ok r <-> stars_apart_fold uva uvk [dsig 100 a; dsig 101 b; dsig 102 c] = true).
+Proof. exact (exact_on_spec Ux exact_on_Ux). Qed.
+
+Example Ux_size : length Ux = 35%nat.
+Proof. vm_compute. reflexivity. Qed.
+
+Print Assumptions merger_star_names.
+Print Assumptions embed_n_src_ok.
+Print Assumptions embed_n_truthful.
+Print Assumptions embed_n_truthful_entries.
+Print Assumptions embed_n_truthful_needs_dict.
+Print Assumptions embed_n_src_shape.
+Print Assumptions embed_n_nodup.
+Print Assumptions merger_words.
+Print Assumptions merge_src_shape_n_partial.
+Print Assumptions merge_src_shape_n_refuted.
+Print Assumptions stars_apart_fold_weaker.
+Print Assumptions src_okb_spec.
+Print Assumptions embed_n_src_ok_sat.
+Print Assumptions stars_apart_fold_excludes_refutation.
+Print Assumptions stars_apart_fold_not_necessary.
+Print Assumptions embed_n_shape_sat.
+Print Assumptions merge_src_shape_n_sat.
+Print Assumptions stars_apart_fold_iff_bounded.
